@@ -7,6 +7,7 @@ from pyvc.loops import LoopSpec
 from pyvc import models as M
 from pyvc.classes import cls_of, issub
 from pyvc.state import RaiseSig, Unsupported, SHAREDP
+from pyvc.values import box_map
 from pyvc.interp import is_callable, truthy
 from specs.sig import *   # noqa
 from contracts.sinter import TFunc
@@ -77,6 +78,7 @@ def register(E):
 
     register_dispatch(E)
     register_dispatch_contract(E)
+    register_bind_all(E)
     from contracts import route as _route
     _route.register_more(E)
     E.specns['INSERT_AT'] = __import__('pyvc.interp', fromlist=['VSpecFn']).VSpecFn(I0, 'INSERT_AT')
@@ -625,3 +627,77 @@ def folds(E):
                                           z3.If(z3.And(f['match'], z3.Not(f['admits'])), f['methods'], Z.empty_set(Z.Str)))))
     _EXC_DEFS['EXC'], _EXC_DEFS['AM'] = EXC, AM
     return EXC, AM
+
+
+def register_bind_all(E):
+    """SubApplication.bind_all (C10, C11): every route of the embedded application is re-bound to the
+    embedding one, in order, with the prefix and the two inheritance flags -- and all of it happens
+    before the list is handed back (add() inserts only after every bind succeeded)."""
+    from pyvc.loops import LoopSpec
+    BIND = Z.func('REBOUND', Z.Obj, Z.Obj, Z.Obj, Z.Obj)      # (bound route, application, keyword map) -> new bound route
+
+    def bind_model(I, ctx, rt, app=None, **kwargs):
+        star = kwargs.pop('__star__', None)
+        if star is None:
+            star = ctx.alloc(HDict(conc=dict(kwargs)))
+        kw = E.freeze(ctx, I.resolve(ctx, star))
+        kwz = box_map(kw.dom, kw.arr) if isinstance(kw, VMap) else Z.NONE
+        if ctx.nondet(2, 'bind raises') == 1:
+            any_exception(E, ctx)
+        r = BIND(rt.z, box(app, ctx), kwz)
+        ctx.assume(r != Z.NONE)
+        ctx.trace.append(('rebind', rt, app, kw))
+        return VObj(r, 'BoundRoute')
+    E.add_contract(Contract('clastic.route.BoundRoute.bind', trusted=True, model=bind_model,
+                            note='call-site summary: BoundRoute.bind(app, **kw) is BoundRoute(self, app, **kw) -- a new bound route '
+                                 'determined by (route, app, kw) or an exception; BoundRoute.__init__ is verified on its own'))
+
+    @E.spec('REBOUND')
+    def REBOUND(I, ctx, rt, app, kw):
+        kw = I.resolve(ctx, kw)
+        d = M.dict_sym(I, ctx, kw)
+        return VObj(BIND(rt.z, box(I.resolve(ctx, app), ctx), box_map(d[0], d[1])), 'BoundRoute')
+
+    @E.spec('BIND_KW')
+    def BIND_KW(I, ctx, kwargs0, prefix, rebind_render, inherit_slashes):
+        """kwargs0 + {'prefix': prefix} with the two flags defaulted"""
+        d = M.dict_sym(I, ctx, I.resolve(ctx, kwargs0))
+        dom, arr = d[0], d[1]
+        sv = z3.StringVal
+
+        def default(dom, arr, k, v):
+            vz = box(I.resolve(ctx, v), ctx)
+            return z3.SetAdd(dom, sv(k)), z3.If(z3.IsMember(sv(k), dom), arr, z3.Store(arr, sv(k), vz))
+        dom, arr = z3.SetAdd(dom, sv('prefix')), z3.Store(arr, sv('prefix'), box(I.resolve(ctx, prefix), ctx))
+        dom, arr = default(dom, arr, 'rebind_render', rebind_render)
+        dom, arr = default(dom, arr, 'inherit_slashes', inherit_slashes)
+        return VMap(dom, arr, TStr, TObj())
+
+    @E.spec('ALL_REBOUND')
+    def ALL_REBOUND(I, ctx, lst, routes, n, app, kw):
+        """lst[j] is REBOUND(routes[j], app, kw) for every j < n"""
+        ql = I._as_seq(ctx, I.resolve(ctx, lst), TBRoute)
+        qr = I._as_seq(ctx, I.resolve(ctx, routes), TBRoute)
+        d = M.dict_sym(I, ctx, I.resolve(ctx, kw))
+        kwz = box_map(d[0], d[1])
+        az = box(I.resolve(ctx, app), ctx)
+        j = z3.Int('q!rebound!j')
+        nz = TInt.to_z(I.resolve(ctx, n))
+        return VBool(z3.ForAll([j], z3.Implies(z3.And(j >= 0, j < nz), ql[0][j] == BIND(qr[0][j], az, kwz))))
+
+    KW = 'BIND_KW(_kw0, self.prefix, self.rebind_render, self.inherit_slashes)'
+    E.add_contract(Contract(
+        'clastic.application.SubApplication.bind_all',
+        params={'self': TInst('clastic.application.SubApplication',
+                              {'prefix': TStr, 'app': TApp, 'rebind_render': TBool, 'inherit_slashes': TBool}),
+                'app': TApp, 'kwargs': TDict(TStr, TObj())},
+        ghost={'_kw0': 'kwargs'},
+        # Application.routes holds BoundRoute objects (add() inserts what bind() returns); BoundRoute is not a Route subclass
+        requires=['forall_int(0, len(self.app.routes), lambda j: not isinstance_of(self.app.routes[j], "clastic.route.NullRoute"))'],
+        loops={('rt', 'self.app.routes'): LoopSpec(
+            inv=['len(ret) == _i',
+                 'ALL_REBOUND(ret, _seq, _i, app, %s)' % KW],
+            modifies={'ret': TList(TBRoute)})},
+        ensures=['len(result) == len(self.app.routes)',
+                 'ALL_REBOUND(result, self.app.routes, len(result), app, %s)' % KW],
+        may_raise_any=True, returns=TList(TBRoute), prop=['C10', 'C11']))
